@@ -30,6 +30,10 @@ func meta(v px.Ver) map[string]string { return map[string]string{"version": v.St
 // with a token that could continue the statement before it, braces are balanced.
 var malformed = []string{"$v = ;", "1 +;", "$x $y;", "echo ,;", "=> 1;", "function ;", ")", "foo(;", "if (;", "class {}", "$a = = 1;", "]", "while ();", "$o-> ;", "new ;", "1 2;", ", 1;", "static function;"}
 
+// malformedTop are closers with nothing to close; they are malformed only at a
+// boundary of the top-level list (inside a block they would end the block).
+var malformedTop = []string{"}", "} }", "endif;", "endwhile;", "endforeach;", "endfor;", "endswitch;", "enddeclare;", "case 1:", "default:"}
+
 const tail = " $r1 = 1; $r2 = 2; $r3 = 3; sentinel_9f ( 1 ) ; "
 
 // listRef locates a statement list in a tree.
@@ -166,7 +170,11 @@ func TestInsertedMalformedStatement(t *testing.T) {
 		if at < 0 {
 			return
 		}
-		m := rapid.SampledFrom(malformed).Draw(rt, "malformed")
+		pool := malformed
+		if lr.where == "Root" && lr.depth == 0 {
+			pool = append(append([]string{}, malformed...), malformedTop...)
+		}
+		m := rapid.SampledFrom(pool).Draw(rt, "malformed")
 		edited := append(append(append([]byte{}, src[:at]...), []byte(" "+m+tail)...), src[at:]...)
 		bad := px.Parse(edited, v, true)
 		harness.Eval()
@@ -335,6 +343,17 @@ func TestCorpusReplay(t *testing.T) {
 			}
 			if cl, msg := printClause(src, r.Root); cl != "" {
 				harness.Failf(t, cl, src, meta(v), "[%s] %s [corpus file %s]", v, msg, f)
+			}
+			// regression inputs carry the sentinel statement after their malformed one
+			if bytes.Contains(src, []byte("sentinel_9f")) {
+				found := false
+				astx.Walk(r.Root, func(n ast.Vertex, _ string) bool {
+					found = found || isSentinel(n)
+					return !found
+				})
+				if !found {
+					harness.Failf(t, "no-resume", src, meta(v), "[%s] the sentinel statement after the malformed one is not in the returned tree [corpus file %s]", v, f)
+				}
 			}
 		}
 	}
